@@ -306,7 +306,7 @@ func (ctx *_builtinJSON_stringifyContext) str(key Value, holder *Object) bool {
 			switch pValue := o1.pValue.(type) {
 			case valueInt, valueFloat:
 				value = o.ToNumber()
-			default:
+			case valueBool, *valueBigInt:
 				value = pValue
 			}
 		case *stringObject:
